@@ -127,6 +127,9 @@ def string_variants(cs, bo, tier):
         # only AFTER this field (evaluating it would fail)
         lkl = Lookup((((Cmp("SEL", "==", "0"),), 16.0 + extra), ((Cmp("SENT", "==", "1"),), 32.0 + extra)))
         out.append((f"str:{dname}:lookup-late-error", StrEnc(lkl, cs, bo, term, lead), ("lookup", (16 + extra, 0, 0, 0))))
+        # a matching entry of length 0 (text absent in this mode) BEFORE a catch-all entry: 0 is a length like any other
+        lkz = Lookup((((Cmp("SEL", "==", "1"),), 0.0), ((Cmp("SEL", ">=", "0"),), 16.0 + extra)))
+        out.append((f"str:{dname}:lookup-zero-then-catch-all", StrEnc(lkz, cs, bo, term, lead), ("lookup", (16 + extra, 0, 16 + extra, 16 + extra))))
         # inside ONE entry: a comparison that is false guards a later one that cannot be evaluated (the entry simply does not match)
         lkg = Lookup((((Cmp("SEL", "==", "3"), Cmp("SENT", "==", "1")), 32.0 + extra), ((Cmp("SEL", "<=", "2"),), 16.0 + extra)))
         out.append((f"str:{dname}:lookup-guarded", StrEnc(lkg, cs, bo, term, lead), ("lookup", (16 + extra, 16 + extra, 16 + extra, 0))))
@@ -153,6 +156,8 @@ def binary_variants(tier):
     out.append(("bin:lookup-overlap", BinEnc(lko), ("lookup", (20, 8, 8, 32))))
     lkl = Lookup((((Cmp("SEL", "==", "0"),), 12.0), ((Cmp("SENT", "==", "1"),), 32.0)))
     out.append(("bin:lookup-late-error", BinEnc(lkl), ("lookup", (12, 0, 0, 0))))
+    lkz = Lookup((((Cmp("SEL", "==", "1"),), 0.0), ((Cmp("SEL", ">=", "0"),), 12.0)))
+    out.append(("bin:lookup-zero-then-catch-all", BinEnc(lkz), ("lookup", (12, 0, 12, 12))))
     lkg = Lookup((((Cmp("SEL", "==", "3"), Cmp("SENT", "==", "1")), 32.0), ((Cmp("SEL", "<=", "2"),), 20.0)))
     out.append(("bin:lookup-guarded", BinEnc(lkg), ("lookup", (20, 20, 20, 0))))
     for adj in ADJUSTMENTS:
